@@ -1949,6 +1949,60 @@ def eval_cli(ctx, case, scratch):
         ctx.bucket('cli:flat-spectrum')
 
 
+def eval_cli_instrument(ctx, case, scratch):
+    """program flow with [Binning] + [Instrument]: every key of the instrument section (SNR, num_observations) reaches the
+    instrument call; the stored instrument spectrum / noise are those of the same instrument driven through the library"""
+    import h5py
+    import taurex.taurex as T
+    from taurex.binning import SimpleBinner
+    from taurex.instruments.snr import SNRInstrument
+    inst = case['instrument']
+    lo, hi, nb = inst['grid']
+    f = list(case['file']) + [
+        ('Binning', dict(scalars=[('bin_type', 'manual'), ('wavenumber_grid', [repr(lo), repr(hi), str(nb)])], subs=[])),
+        ('Instrument', dict(scalars=[('instrument', 'snr'), ('SNR', repr(inst['snr'])),
+                                     ('num_observations', str(inst['nobs']))], subs=[]))]
+    path = os.path.join(scratch, 'cli_inst.par')
+    out_h5 = os.path.join(scratch, 'cli_inst_out.h5')
+    if os.path.exists(out_h5):
+        os.remove(out_h5)
+    write_file(path, f)
+    small = dict(kind='cli_instrument', file=f, spec=case['spec'], instrument=inst)
+    clear_caches()
+    argv = sys.argv
+    sys.argv = ['taurex', '-i', path, '-o', out_h5]
+    try:
+        with contextlib.redirect_stdout(io.StringIO()):
+            T.main()
+    except BaseException as e:  # noqa
+        if isinstance(e, KeyboardInterrupt):
+            raise
+        ctx.violation('cli-raised:instrument', 'the command-line program failed on a well-formed input file with '
+                      '[Binning] and [Instrument]: %r' % (e,), small)
+        return
+    finally:
+        sys.argv = argv
+    with h5py.File(out_h5, 'r') as h:
+        g = h['Output/Spectra']
+        got = {k: g[k][...] for k in ('instrument_wngrid', 'instrument_spectrum', 'instrument_noise') if k in g}
+    model = build_library(case['spec'])
+    res = model.model()
+    lib = SNRInstrument(SNR=inst['snr'], binner=SimpleBinner(np.linspace(lo, hi, nb))).model_noise(
+        model, model_res=res, num_observations=inst['nobs'])
+    ctx.disagreements_checked += 3
+    ctx.case(key=('cli-instrument', inst['nobs'], nb), bucket='stream:cli-instrument',
+             sample=dict(instrument=inst, noise=np.asarray(lib[2])[:3]))
+    ok = len(got) == 3 and C.close(got['instrument_wngrid'], lib[0], rel=1e-12) \
+        and C.close(got['instrument_spectrum'], lib[1], rel=1e-10, abs_=1e-300) \
+        and C.close(got['instrument_noise'], lib[2], rel=1e-10, abs_=1e-300)
+    if not ok:
+        ctx.violation('cli-instrument-differs-from-library',
+                      'taurex -i f -o out.h5 with [Instrument] instrument=snr, SNR, num_observations does not store the '
+                      'spectrum / noise of the same instrument called through the library with those values', small,
+                      dict(stored={k: np.asarray(v)[:3] for k, v in got.items()}, lib_noise=np.asarray(lib[2])[:3],
+                           lib_spectrum=np.asarray(lib[1])[:3]))
+
+
 # ----------------------------------------------------------------------------- run / replay / search
 def portable(x, scratch):
     """make a case replayable in another scratch directory"""
@@ -2026,6 +2080,13 @@ def run(ctx):
             case = gen_cli_case(rng, opac)
             eval_cli(ctx, case, s.scratch)
             clear_caches()
+            if i % 3 == 0:
+                nv = len(ctx.violations)
+                case['instrument'] = dict(grid=[float(rng.integers(500, 900)), float(rng.integers(4000, 5800)),
+                                                int(rng.integers(8, 30))], snr=float(rng.integers(5, 200)),
+                                          nobs=int(rng.integers(1, 12)))
+                eval_cli_instrument(ctx, case, s.scratch)
+                clear_caches()
             eval_file(ctx, case, s.scratch, count=False)
             if i % 4 == 0:
                 for mc in targeted_malformed(rng, case):
@@ -2058,7 +2119,7 @@ def replay(ctx, case):
             lookup_stream(ctx)
         elif kind == 'case':
             case_stream(ctx)
-        elif kind == 'cli':
+        elif kind in ('cli', 'cli_instrument'):
             opac = make_opacities(s.scratch, np.random.default_rng(int(case.get('opac_seed', 0))))
             c = dict(case)
             c['file'] = [(n, dict(scalars=[tuple(x) if not isinstance(x[1], list) else (x[0], x[1]) for x in sec['scalars']],
@@ -2068,7 +2129,11 @@ def replay(ctx, case):
                                   subs=sec['subs'])) for n, sec in c['file']]
             c['spec'] = {k: tuple(v) for k, v in case['spec'].items()}
             c.setdefault('meta', [('cli', 'replay')])
-            eval_cli(ctx, c, s.scratch)
+            if kind == 'cli_instrument':
+                c['file'] = [x for x in c['file'] if x[0] not in ('Binning', 'Instrument')]
+                eval_cli_instrument(ctx, c, s.scratch)
+            else:
+                eval_cli(ctx, c, s.scratch)
         else:
             for p, src in case.get('custom_src', {}).items():
                 with open(p, 'w') as fh:
